@@ -97,7 +97,7 @@ class XEnv(X.Env):
                 raise X.IllConditioned("log")
             return math.log(x) if n == "LN" else math.log10(x)
         if n in ("SIN", "COS", "TAN"):
-            if n == "TAN" and abs(math.cos(x)) < 1e-3:
+            if abs(x) > 1e3 or (n == "TAN" and abs(math.cos(x)) < 0.05):
                 raise X.IllConditioned("tan")
             return getattr(math, n.lower())(x)
         if n in ("ARCSIN", "ARCCOS"):
